@@ -426,7 +426,9 @@ pub fn worker_main(def: &'static CheckDef, tier: Tier, shard: usize, nshards: us
     install_signal_handlers();
     // RSS/address-space cap: an unbounded allocation becomes an abort attributed to the open item.
     unsafe {
-        let lim = libc::rlimit { rlim_cur: 4 << 30, rlim_max: 4 << 30 };
+        // (C05's thorough tier compiles and runs the whole corelib test suite in one process: 8 GiB there)
+        let gib: u64 = if def.id == "C05" { 8 } else { 4 };
+        let lim = libc::rlimit { rlim_cur: gib << 30, rlim_max: gib << 30 };
         libc::setrlimit(libc::RLIMIT_AS, &lim);
     }
     CASE_TIMEOUT_MS.store(def.item_timeout_s * 1000, Ordering::SeqCst);
